@@ -51,7 +51,7 @@ def run(tier, a=None):
             json.dump({'property': 'C17', 'key': key, 'entry': 'decasteljau', 'claim': desc, 'inputs': vals, 'cbmc_property': pid, 'replay': rep}, open(fn, 'w'), indent=1)
             res.violations.append((key, fn))
     # translation validation: generated C (native) vs the real decasteljau<SE2d> on the whole box
-    nat = os.path.join(wd, 'slice_native'); real = os.path.join(wd, 'dc_real')
+    nat = os.path.join(wd, 'slice_native'); real = os.path.join(wd, 'dc_real_' + build.tree_hash())
     r1 = subprocess.run(['gcc', '-DNATIVE', '-O1', '-o', nat, cf, '-lm'], capture_output=True, text=True)
     open(os.path.join(wd, 'dc.cpp'), 'w').write(REAL_SRC)
     r2 = subprocess.run(['g++', '-std=c++11', '-O1', '-w', '-I' + os.path.join(build.REPO, 'include'), '-I' + os.path.join(build.REPO, 'external/tl'), '-isystem', '/usr/include/eigen3', os.path.join(wd, 'dc.cpp'), '-o', real], capture_output=True, text=True)
@@ -81,7 +81,7 @@ def run(tier, a=None):
     return runner.conclude(res)
 def replay_real(wd, vals):
     try:
-        real = os.path.join(wd, 'dc_real_asan'); src = os.path.join(wd, 'dc.cpp'); open(src, 'w').write(REAL_SRC)
+        real = os.path.join(wd, 'dc_real_asan_' + build.tree_hash()); src = os.path.join(wd, 'dc.cpp'); open(src, 'w').write(REAL_SRC)
         if not os.path.exists(real):
             subprocess.run(['g++', '-std=c++11', '-O1', '-g', '-w', '-fsanitize=address', '-I' + os.path.join(build.REPO, 'include'), '-I' + os.path.join(build.REPO, 'external/tl'), '-isystem', '/usr/include/eigen3', src, '-o', real], capture_output=True)
         args = [str(vals.get('N', 3)), str(vals.get('degree', 2)), str(vals.get('k', 1)), str(vals.get('closed', 0))]
